@@ -1,13 +1,21 @@
 package smt
-import ("testing";"time")
-func TestTiming(t *testing.T){
- c:=NewCtx(); s,_:=NewSolver(5000,"z3","-in"); 
- s.Reset(c)
- x:=c.Var("x",SInt)
- t0:=time.Now()
- for i:=0;i<100;i++{ s.CheckWith(c.Lt(c.Int(int64(i)),x)) }
- t.Log("100 checks", time.Since(t0))
- t0=time.Now()
- s.Close()
- t.Log("close", time.Since(t0))
+
+import (
+	"testing"
+	"time"
+)
+
+func TestTiming(t *testing.T) {
+	c := NewCtx()
+	s, _ := NewSolver(5000, "z3", "-in")
+	s.Reset(c)
+	x := c.Var("x", SInt)
+	t0 := time.Now()
+	for i := 0; i < 100; i++ {
+		s.CheckWith(c.Lt(c.Int(int64(i)), x))
+	}
+	t.Log("100 checks", time.Since(t0))
+	t0 = time.Now()
+	s.Close()
+	t.Log("close", time.Since(t0))
 }
